@@ -51,11 +51,12 @@ def termNil (H W : Nat) : TermPotF := fun _ g => termR H W g + 1
 /-- `..` (no index), then `C` -/
 def termU0 (H W : Nat) (C : TermPotF) : TermPotF := fun _ g => 1 + max (termR H W g) (C (H + 1) (g + 2 * H))
 
-/-- a token without a name, then `C` -/
+/-- a token without a name, then `C` (`termR`: a `[new()]` step re-resolves `found` and ends the search) -/
 def termZ (H W : Nat) : Nat → TermPotF → Nat → Nat
-  | 0, C, g => (W + 4) + C 0 (g + 1)
+  | 0, C, g => (W + 4) + max (C 0 (g + 1)) (termR H W g)
   | h + 1, C, g =>
-    max ((W + 4) + C (h + 1) (g + 1)) (max ((W + 4) + termZ H W h C (g + 1)) (1 + termZ H W h (termU0 H W C) (g + 1)))
+    max ((W + 4) + max (C (h + 1) (g + 1)) (termR H W g))
+      (max ((W + 4) + termZ H W h C (g + 1)) (1 + termZ H W h (termU0 H W C) (g + 1)))
 
 /-- a name token other than `..`, then `C` -/
 def termN (H W : Nat) : Nat → TermPotF → Nat → Nat
